@@ -32,8 +32,15 @@ Definition mk_env (json : list (str * option str)) (lines : list (hres * str)) :
 Inductive case :=
 | CStream (chunks : list event) (json : list (str * option str)) (lines : list (hres * str))
           (o_out : list bytes) (o_calls : list call) (o_rest : bytes) (o_alive : bool)
-| CEncode (m : msg) (o : bytes)
+| CEncode (m : msg) (o : option bytes)   (* None: encode_msg_frame raised UnicodeEncodeError *)
 | CDecode (line : bytes) (json : list (str * option str)) (o : option msg).
+
+(* law of the json.dumps oracle (ensure_ascii left at its default): every data text handed to the model - reply data,
+   error texts, data of the messages handlers and other threads sent - is printable ASCII.  It is the premise of
+   C07_reply_ascii_data / C07_never_terminates, so it is checked on every case *)
+Definition ascii_lines (lines : list (hres * str)) : bool :=
+  forallb (fun p => hres_q printable (fst p) && forallb printable (snd p)) lines.
+Definition ascii_event (ev : event) : bool := match ev with Chunk _ => true | Async m => qmsg printable m end.
 
 Definition check_case (c : case) : bool :=
   match c with
@@ -41,7 +48,8 @@ Definition check_case (c : case) : bool :=
       let st := serve (mk_env json lines) chunks in
       list_eqb str_eqb (output st) o_out && list_eqb call_eqb (rev (calls st)) o_calls
       && str_eqb (buf st) o_rest && Bool.eqb (alive st) o_alive && Nat.eqb (nline st) (length lines)
-  | CEncode m o => str_eqb (encode_frame m) o
+      && ascii_lines lines && forallb ascii_event chunks
+  | CEncode m o => opt_eqb str_eqb (encode_msg m) o && qostr printable (snd m)
   | CDecode line json o => opt_eqb msg_eqb (decode_msg (mk_env json []) line) o
   end.
 
@@ -50,6 +58,6 @@ Definition model_result (c : case) : list bytes * list call * bytes * option msg
   match c with
   | CStream chunks json lines _ _ _ _ =>
       let st := serve (mk_env json lines) chunks in (output st, rev (calls st), buf st, None)
-  | CEncode m _ => ([encode_frame m], [], [], None)
+  | CEncode m _ => (match encode_msg m with Some f => [f] | None => [] end, [], [], None)
   | CDecode line json _ => ([], [], [], decode_msg (mk_env json []) line)
   end.
